@@ -387,6 +387,8 @@ where
             self.storage.loads.lock().unwrap().wants.remove(&thread);
         });
 
+        // set when this very call computed the (failed) result: trying again would only repeat it
+        let failed_here = std::cell::Cell::new(false);
         let res = self.storage.cache.get_or_compute(key, || {
             #[cfg(pdf_verif)]
             crate::verif::yield_point("get:compute-enter", key.id);
@@ -403,8 +405,8 @@ where
             match self.resolve(key).and_then(|p| T::from_primitive(p, self)) {
                 Ok(obj) => Ok(AnySync::new(Shared::new(obj))),
                 Err(e) => {
-                    let p = self.resolve(key);
-                    warn!("failed to decode {p:?} as {}", std::any::type_name::<T>());
+                    warn!("failed to decode object {} as {}", key.id, std::any::type_name::<T>());
+                    failed_here.set(true);
                     Err(Arc::new(e))
                 }
             }
@@ -419,6 +421,7 @@ where
                     }
                 }
             }
+            Err(e) if failed_here.get() => Err(e.into()),
             Err(_) => {
                 // the cache is keyed by reference only: the cached error may come from loading
                 // this object as a different type, so it says nothing about `T`
